@@ -147,6 +147,9 @@ func monitor(r *run) []finding {
 					} else {
 						cause = "stale-successor"
 					}
+				case len(revSince) > 0:
+					// the revert task went on below the orphaned blocks without asking the source
+					cause = "common-ancestor"
 				}
 				add(i, "sync:revert-of-block-source-still-has:"+cause,
 					fmt.Sprintf("reverted b%d (height %d) although version %d of the source, current at that moment, still has it (%s)",
